@@ -78,6 +78,15 @@ def shapes():
     out["ccccc"] = mk("ccccc", ("f", "f", "g", "h", "h"))
     out["cdccc"] = mk("cdccc", ("f", None, "g", "h", "h"))
     out["nofunc"] = mk("ccccc", (None, None, "g", None, None))
+    # a two-block callee whose first block does not return, called once; room for a second call
+    A = scen.code_block("A", [10, 11], None, f="f", e=True)
+    B = scen.code_block("B", [20], ["ret"], f="f")
+    B["le"] = ["E_B"]
+    Cc = scen.code_block("C", [30, 31], None, f="g", e=True)
+    C2 = scen.code_block("C2", [35], ["ret"], f="g")
+    Dd = scen.code_block("D", [40], ["call", "C"], f="h", e=True)
+    E = scen.code_block("E", [50], ["ret"], f="h")
+    out["callee2"] = scen.spec_of([A, B, Cc, C2, Dd, E])
     return out
 
 
